@@ -136,6 +136,11 @@ def gen_case(rng, kind):
             c["in_dtype"] = nd
     if not data and ncols is None and rng.random() < 0.5:
         c["as_list"] = True               # numpy.asarray([]) is a float64 array
+    # the FORM of the argument (same values): memory layout / container; faults behind a contiguity assumption
+    # (ravel(order="K"), .ravel() views, memcpy of a strided buffer) only show for these
+    if data and rng.random() < 0.35:
+        c["layout"] = rng.choice(["fortran", "transposed-store", "strided", "negstride", "colview", "readonly", "list"]
+                                 if ncols is not None else ["strided", "negstride", "readonly", "list"])
     # ---- from_array options ----
     opts = dict(counts=None, common=None, mapping=None)
     cm = rng.choice(["omit", "omit", "in", "absent"])
@@ -390,7 +395,7 @@ def signature(r):
 
 
 def public_case(c):
-    return {k: c[k] for k in ("shape", "data", "opts", "to", "in_dtype", "kind") if k in c} | ({"as_list": True} if c.get("as_list") else {})
+    return {k: c[k] for k in ("shape", "data", "opts", "to", "in_dtype", "kind", "layout") if k in c} | ({"as_list": True} if c.get("as_list") else {})
 
 
 def how_to(c):
@@ -407,8 +412,9 @@ def how_to(c):
         tk.append("mapping=dict(%r)" % (t["mapping"],))
     if t["dtype"] is not None:
         tk.append("dtype=%r" % t["dtype"])
-    return "a = numpy.array(data, dtype=%r).reshape(shape); iindex.from_array(a, %s).to_array(%s) must equal a mapped through the mapping(s)" % (
-        c.get("in_dtype", "int64"), ", ".join(kw), ", ".join(tk))
+    lay = c.get("layout")
+    return "a = numpy.array(data, dtype=%r).reshape(shape)%s; iindex.from_array(a, %s).to_array(%s) must equal a mapped through the mapping(s)" % (
+        c.get("in_dtype", "int64"), ("  # handed over in the form %r: harness/impl_c01.py with_layout" % lay) if lay else "", ", ".join(kw), ", ".join(tk))
 
 
 def report_failures(ctx, cases, results, idxs, source):
@@ -455,6 +461,8 @@ def gen_huge(rng):
         head[1] = a
         data = head + [b] * (cells - 65536)
     c = dict(kind="huge", shape=[n] if ncols is None else [n, ncols], data=data, valid=True, in_dtype="int64")
+    if rng.random() < 0.5:
+        c["layout"] = rng.choice(["fortran", "transposed-store", "strided", "readonly"] if ncols is not None else ["strided", "readonly"])
     opts = dict(counts=None, common=None, mapping=None)
     r = rng.random()
     vals = sorted(set(data))
@@ -478,7 +486,8 @@ def run(ctx):
     ctx.rule = ("integer arrays (1-D, 2-D incl. 0 rows / 0 columns) over value pools on the dtype boundaries "
                 "(255/256, 65535/65536, 2^31+-1, 2^32, -128/-129, +-2^62, int64 extremes, negatives); kinds: small (N in 0..12), "
                 "sparse (N in 80..400, >=5 distinct values, uncommon cells placed on / under / just over the strategy switch so that the "
-                "row-scan path runs), dense-large (N in 80..300), huge (65 537..150 000 cells, implementation + NumPy oracle only, no Coq literal); options: common omitted / in the data / absent, counts omitted / supplied "
+                "row-scan path runs), dense-large (N in 80..300), each in ~35 % of the cases handed over in another FORM with the same content "
+                "(Fortran-ordered / transposed store / strided or column view / negative stride / read-only / nested list), huge (65 537..150 000 cells, implementation + NumPy oracle only, no Coq literal); options: common omitted / in the data / absent, counts omitted / supplied "
                 "shuffled / with unused keys, mapping none / injective / many-to-one / everything-to-one, to_array with explicit dtype / "
                 "default dtype / mapping; plus a rejected stream (no values and no common, mapping missing a key, dtype too small) on which "
                 "model and code must raise the same exception class.  A case is distinct/non-trivial per (input array, options, to_array "
